@@ -36,7 +36,31 @@ def admissible(inp, eol, d, bounds):
     return True
 
 
+def past_u32_record(chk):
+    """thorough tier only: a RECORD of 2^32 bytes (and one byte more) through `-M` on the real release binary — the engine keeps counters and flags,
+    not data, across reads; a byte counter narrower than usize, or a length cast to u32, shows only here (debug builds panic, release builds wrap).
+    Expected outputs are known in advance: the record has no delimiter (so field 2 is absent) or is one field."""
+    import subprocess
+    from common import build_tuc, ENV
+    tuc = build_tuc(release=True)
+    for n in (4294967296, 4294967297):
+        for pre, args, want in ((b"", ["-M", "1", "-d", ",", "-f", "{2=none}"], b"none\n"),
+                                (b"x,y\\n", ["-M", "64", "-d", ",", "-f", "[{2=none}]"], b"[y]\n[none]\n")):
+            argv = " ".join("'" + a + "'" for a in args)
+            cmd = f"(printf '{pre.decode()}'; head -c {n} /dev/zero | tr '\\0' a) | {tuc} {argv} | head -c 100; st=${{PIPESTATUS[1]}}; echo; echo status=$st"
+            p = subprocess.run(["bash", "-c", cmd], stdout=subprocess.PIPE, stderr=subprocess.DEVNULL, env=ENV, timeout=3600)
+            chk.evaluations += 1
+            chk.count("record-past-u32")
+            chk.nontrivial_add(("past-u32", n, tuple(args)))
+            got = p.stdout
+            if not got.startswith(want + b"\nstatus=0"):
+                chk.report_oracle("-M on a last record of 2^32 bytes (no final EOL) does not print what the same cut prints without -M",
+                                  {"shell": cmd, "expected": (want + b"\nstatus=0").decode(), "got": got[:200].decode("latin-1")})
+
+
 def run(chk):
+    if chk.tier == "thorough":
+        past_u32_record(chk)
     chk.rule = ("-M-compatible option sets (1-byte delimiter, ascending non-repeated bounds incl. one trailing open range, per-bound "
                 "and generic fallbacks, format text, -j, 1-byte -r, -z); inputs ≤ L bytes over {a,b,d,EOL,CR} exhaustively under a "
                 "one-segment, a one-byte and a random segmentation, plus random longer inputs with fields larger than the segments; "
